@@ -109,6 +109,29 @@ def make_exact_system(rng):
     return atoms, thr, np.full(len(pos), r), "exact_grid"
 
 
+def make_near_limit_system(rng):
+    """Chains along a Cartesian axis whose links are almost as long as the neighbour cutoff allows (0.9-0.995 of
+    threshold + 2 r_max, all atoms carrying the largest radius), alternating with short links: the bonds a spatial
+    search loses first when its bins or its extension are a little too small."""
+    r = float(rng.uniform(0.5, 1.5))
+    thr = float(rng.uniform(0.3, 3.0))
+    limit = thr + 2 * r
+    n = int(rng.integers(3, 8))
+    f = [float(rng.uniform(0.9, 0.995)) if rng.random() < 0.6 else float(rng.uniform(0.45, 0.7)) for _ in range(n - 1)]
+    ax = int(rng.integers(3))
+    x = np.concatenate([[0.0], np.cumsum(f) * limit])
+    L = np.array([float(rng.uniform(3.0, 8.0)) for _ in range(3)])
+    L[ax] = x[-1] + float(rng.uniform(0.3, 4.0)) * limit
+    pos = np.zeros((n, 3))
+    pos[:, ax] = x + float(rng.uniform(0.0, L[ax] - x[-1]))
+    for a in range(3):
+        if a != ax:
+            pos[:, a] = float(rng.uniform(0, L[a]))
+    pbc = np.array(cells.PBCS[int(rng.integers(8))])
+    atoms = Atoms(numbers=[6] * n, positions=pos, cell=np.diag(L), pbc=pbc)
+    return atoms, thr, np.full(n, r)
+
+
 def judge_call(rec, system, threshold, radii, result, return_clusters, context, presentation="base", exact=False):
     """Compares one get_dimensionality result with the oracle.  Returns the oracle info (or None if not judged)."""
     rec.call(NAME)
@@ -302,6 +325,9 @@ def run_direct(case, rec):
         if rng.random() < 0.10:
             atoms, thr, exact_radii, shape = make_exact_system(rng)
             kind, n, rmode, exact = "orthogonal", len(atoms), "custom", True
+        elif rng.random() < 0.10:
+            atoms, thr, exact_radii = make_near_limit_system(rng)
+            shape, kind, n, rmode = "near_limit_chain", "orthogonal", len(atoms), "custom"
         elif rng.random() < 0.12:
             atoms, thr = make_impurity_system(rng)
             shape, kind = "impurity", "orthogonal"
@@ -313,7 +339,7 @@ def run_direct(case, rec):
             thr = float(rng.uniform(0.3, 3.5)) if rng.random() < 0.6 else float(rng.uniform(0.3, 1.0))
             rmode = ["covalent", "vdw", "custom"][int(rng.integers(3))]
         radii = rmode if rmode != "custom" else rng.uniform(0.3, 1.8, size=n)
-        if exact:
+        if exact or shape == "near_limit_chain":
             radii = exact_radii
         rr = resolve_radii(radii, atoms.get_atomic_numbers())
         cutoff = thr + 2 * rr.max()
